@@ -105,10 +105,21 @@ def _is_generic(o) -> bool:
     return o is typing.Union or isinstance(o, (typing._GenericAlias, typing._SpecialGenericAlias))
 
 
+def _own_qualname(o) -> str:
+    """getattr(o, "__qualname__", <absent>) as an option string (a non-str value equals no recorded name)"""
+    try:
+        q = o.__qualname__
+    except AttributeError:
+        return "None"
+    except Exception:
+        return f"(Some {coq_str('?unreadable-qualname')})"
+    return f"(Some {coq_str(q if isinstance(q, str) else '?non-str-qualname')})"
+
+
 def obj_term(o, ct: common.ClassTable, ft: FuncTable, depth=0) -> str:
     """A Python object found by name -> Gallina pyobj, in the order the code under test inspects it."""
     if depth > 20:
-        return "OOther"
+        return f"(OOther {_own_qualname(o)})"
     if o is typing.Any:
         return "OAny"
     for g, name in _generics():
@@ -125,9 +136,9 @@ def obj_term(o, ct: common.ClassTable, ft: FuncTable, depth=0) -> str:
     except AttributeError:
         has = False
     except Exception:
-        return "OOther"
+        return f"(OOther {_own_qualname(o)})"
     if has:
-        return f"(OWrapper {obj_term(wrapped, ct, ft, depth + 1)})"
+        return f"(OWrapper {_own_qualname(o)} {obj_term(wrapped, ct, ft, depth + 1)})"
     if isinstance(o, types.MethodType):
         return f"(OBound {obj_term(o.__func__, ct, ft, depth + 1)})"
     if isinstance(o, property):
@@ -137,7 +148,7 @@ def obj_term(o, ct: common.ClassTable, ft: FuncTable, depth=0) -> str:
         return f"(OFunc {coq_N(ft.of(o))})"
     if isinstance(o, types.BuiltinFunctionType):
         return f"(OBuiltin {coq_N(ft.of(o))})"
-    return "OOther"
+    return f"(OOther {_own_qualname(o)})"
 
 
 def resolve_live(module: str, qualname: str):
